@@ -71,6 +71,60 @@ import (
 )
 
 // ---------------------------------------------------------------------------------------------
+// runaway guard
+//
+// On the unchanged tree BucketRing.EmitFlowCollections does not terminate for some (ring size,
+// pushAfter, bucketsToAggregate) combinations: its backward walk never reaches an already pushed
+// bucket nor the "head strictly inside the window" stop condition and keeps appending collections
+// (see the final report of this check).  A goroutine stuck in that loop cannot be interrupted from
+// outside and grows without bound, so the harness observes the walk through the one side channel the
+// public API offers, the logger: maybeBuildFlowCollection logs one debug record per examined window.
+// While an emitting call runs, debug logging is switched on (output discarded, null formatter) and a
+// hook counts those records; a walk that examines more than 4*n+50 windows (more than four laps of
+// the ring) is stopped by a panic out of the hook (ring cases, recovered by the caller) or by parking
+// the goroutine (goldmane cases).  Such a case is INCONCLUSIVE (it is a liveness failure, which the
+// property statement does not cover), never a violation.
+const walkMessage = "Checking if bucket range should be emitted"
+
+type runawayErr struct{}
+
+type runawayHook struct {
+	armed   atomic.Bool
+	park    atomic.Bool
+	count   atomic.Int64
+	limit   atomic.Int64
+	seen    atomic.Int64
+	tripped atomic.Bool
+	notify  atomic.Pointer[func()]
+}
+
+func (h *runawayHook) Levels() []logrus.Level { return []logrus.Level{logrus.DebugLevel} }
+
+func (h *runawayHook) Fire(e *logrus.Entry) error {
+	if !h.armed.Load() || e.Message != walkMessage {
+		return nil
+	}
+	h.seen.Add(1)
+	if h.count.Add(1) <= h.limit.Load() {
+		return nil
+	}
+	h.tripped.Store(true)
+	if h.park.Load() {
+		if f := h.notify.Load(); f != nil {
+			(*f)()
+		}
+		select {} // park the runaway goroutine for good
+	}
+	panic(runawayErr{})
+}
+
+var guard = &runawayHook{}
+
+type nullFormatter struct{}
+
+func (nullFormatter) Format(*logrus.Entry) ([]byte, error) { return nil, nil }
+
+// ---------------------------------------------------------------------------------------------
 // flow keys and counters
 
 type cnt struct {
@@ -312,6 +366,35 @@ func (rc *ringCase) witness(extra map[string]any) map[string]any {
 		m[k] = v
 	}
 	return m
+}
+
+// guarded runs an emitting call under the runaway guard; it reports true if the walk was cut off.
+func (rc *ringCase) guarded(fn func()) (runaway bool) {
+	guard.count.Store(0)
+	guard.limit.Store(int64(4*rc.n + 50))
+	guard.park.Store(false)
+	guard.tripped.Store(false)
+	guard.armed.Store(true)
+	logrus.SetLevel(logrus.DebugLevel)
+	defer func() {
+		logrus.SetLevel(logrus.PanicLevel)
+		guard.armed.Store(false)
+		if r := recover(); r != nil {
+			if _, ok := r.(runawayErr); !ok {
+				panic(r)
+			}
+			runaway = true
+		}
+	}()
+	fn()
+	return false
+}
+
+func (rc *ringCase) runaway(where string) {
+	rc.c.Count("emit_walk_runaway_cases", 1)
+	rc.c.Distinct("emit_walk_runaway_config", rc.n, rc.P, rc.A)
+	rc.c.Sample(map[string]any{"emit_walk_runaway": where, "n": rc.n, "pushAfter": rc.P, "bucketsToAggregate": rc.A, "ops_so_far": len(rc.ops)})
+	rc.c.Inconclusive("emit-flow-collections-walk-does-not-terminate")
 }
 
 func (rc *ringCase) list(gte, lt int64, sortBy proto.SortBy) (map[int]cnt, bool) {
@@ -612,7 +695,10 @@ func runRing(c *harness.Case) {
 			rc.now += rc.interval
 			rc.op("Rollover sink=%v", withSink)
 			if withSink {
-				rc.ring.Rollover(rc.sink)
+				if rc.guarded(func() { rc.ring.Rollover(rc.sink) }) {
+					rc.runaway("Rollover(sink)")
+					return
+				}
 			} else {
 				rc.ring.Rollover(nil)
 			}
@@ -640,7 +726,10 @@ func runRing(c *harness.Case) {
 			}
 		case x < 15: // EmitFlowCollections
 			rc.op("EmitFlowCollections")
-			rc.ring.EmitFlowCollections(rc.sink)
+			if rc.guarded(func() { rc.ring.EmitFlowCollections(rc.sink) }) {
+				rc.runaway("EmitFlowCollections")
+				return
+			}
 			c.Count("emit_calls", 1)
 			rc.checkEmissions()
 			if !verifyState("EmitFlowCollections") {
@@ -817,10 +906,14 @@ func runRing(c *harness.Case) {
 	}
 	// final: catch up emission and verify everything once more
 	rc.op("EmitFlowCollections (final)")
-	rc.ring.EmitFlowCollections(rc.sink)
+	if rc.guarded(func() { rc.ring.EmitFlowCollections(rc.sink) }) {
+		rc.runaway("EmitFlowCollections")
+		return
+	}
 	rc.checkEmissions()
 	verifyState("the final emission")
 	c.Count("ring_cases", 1)
+	c.Count("emit_walk_steps_observed", guard.seen.Swap(0))
 	if len(rc.seenWin) > 0 && len(rc.led.m) > 0 {
 		c.NonTrivial(rc.ops)
 	}
@@ -863,6 +956,38 @@ func runGoldmane(c *harness.Case) {
 		rcond.Broadcast()
 		return rollCh
 	}
+	// runaway guard in park mode for the whole case (emission happens on the main loop goroutine)
+	runawayCh := make(chan struct{})
+	var once sync.Once
+	nf := func() {
+		once.Do(func() { close(runawayCh) })
+		rmu.Lock()
+		rcond.Broadcast()
+		rmu.Unlock()
+	}
+	guard.notify.Store(&nf)
+	guard.count.Store(0)
+	guard.limit.Store(4*242 + 50)
+	guard.park.Store(true)
+	guard.tripped.Store(false)
+	guard.armed.Store(true)
+	logrus.SetLevel(logrus.DebugLevel)
+	defer func() {
+		logrus.SetLevel(logrus.PanicLevel)
+		guard.armed.Store(false)
+		guard.notify.Store(nil)
+		c.Count("emit_walk_steps_observed", guard.seen.Swap(0))
+	}()
+	isRunaway := func() bool {
+		if guard.tripped.Load() {
+			c.Count("emit_walk_runaway_cases", 1)
+			c.Distinct("emit_walk_runaway_config", 242, P, A)
+			c.Sample(map[string]any{"emit_walk_runaway": "goldmane main loop", "n": 242, "pushIndex": P, "bucketsToCombine": A})
+			c.Inconclusive("emit-flow-collections-walk-does-not-terminate")
+			return true
+		}
+		return false
+	}
 	gm := goldmane.NewGoldmane(goldmane.WithRolloverTime(interval*time.Second), goldmane.WithRolloverFunc(rollFn),
 		goldmane.WithNowFunc(func() time.Time { return time.Unix(now.Load(), 0) }),
 		goldmane.WithBucketsToCombine(A), goldmane.WithPushIndex(P))
@@ -883,7 +1008,7 @@ func runGoldmane(c *harness.Case) {
 		want := rollCalls + 1
 		now.Add(interval)
 		rollCh <- time.Unix(now.Load(), 0)
-		for rollCalls < want && !timedOut.Load() {
+		for rollCalls < want && !timedOut.Load() && !guard.tripped.Load() {
 			rcond.Wait()
 		}
 		return rollCalls >= want
@@ -954,7 +1079,17 @@ func runGoldmane(c *harness.Case) {
 	for i := 0; i < r1 && ok; i++ {
 		ok = rollover()
 	}
-	wg.Wait()
+	wgDone := make(chan struct{})
+	go func() { wg.Wait(); close(wgDone) }()
+	select {
+	case <-wgDone:
+	case <-runawayCh:
+	case <-time.After(60 * time.Second):
+		timedOut.Store(true)
+	}
+	if isRunaway() {
+		return
+	}
 	if !ok || timedOut.Load() {
 		c.Inconclusive("goldmane-rollover-watchdog")
 		return
@@ -996,6 +1131,9 @@ func runGoldmane(c *harness.Case) {
 	<-gm.SetSink(sink)
 	for i := 0; i < P+A+4 && ok; i++ {
 		ok = rollover()
+	}
+	if isRunaway() {
+		return
 	}
 	if !ok {
 		c.Inconclusive("goldmane-rollover-watchdog")
@@ -1053,7 +1191,9 @@ func run(c *harness.Case) {
 
 func main() {
 	logrus.SetOutput(io.Discard)
+	logrus.SetFormatter(nullFormatter{})
 	logrus.SetLevel(logrus.PanicLevel)
+	logrus.AddHook(guard)
 	harness.Main(harness.Check{
 		ID:    "C32",
 		Level: "exploration",
